@@ -172,17 +172,16 @@ Proof.
     repeat (first [ discriminate | reflexivity | destruct_any_match ]; cbv in *).
 Qed.
 
-(* an application that is not Managed gives NOT_MANAGED — except for restart_application (finding F19) *)
+(* an application that is not Managed gives NOT_MANAGED (start / test_start / stop / restart_application) *)
 Theorem fault_codes_not_managed :
   forall v r, gate_allows (rq_meth r) (nv_state v) = true ->
               bad_strategy r = false -> unknown_name r = false -> unmanaged_app r = true ->
-              is_restart_application (rq_meth r) = false ->          (* H_not_restart_application *)
               call v r = (v, [], Fault F_NOT_MANAGED).
 Proof.
-  intros v r Hg Hs Hn Hu Hr. unfold call. rewrite Hg. clear Hg.
+  intros v r Hg Hs Hn Hu. unfold call. rewrite Hg. clear Hg.
   destruct r as [m st a p i pg n lv rx w fl].
   unfold bad_strategy, unknown_name, unmanaged_app in *. cbn in *.
-  destruct m; cbn in *; try discriminate Hu; try discriminate Hr;
+  destruct m; cbn in *; try discriminate Hu;
     destruct a; cbn in *; try discriminate Hu;
     destruct st; cbn in *; try discriminate Hs; reflexivity.
 Qed.
@@ -191,60 +190,69 @@ Example fault_codes_sat :
   let v := mk_view S_OPERATION MOther true false true in
   let r := mk_req M_stop_application StOk ApUnmanaged PrKnown InIdent PgKnown NumOk LvOk RxMatch true false in
   gate_allows (rq_meth r) (nv_state v) = true /\ bad_strategy r = false /\ unknown_name r = false
-  /\ unmanaged_app r = true /\ is_restart_application (rq_meth r) = false.
+  /\ unmanaged_app r = true.
+Proof. vm_compute. repeat split. Qed.
+
+(* the other documented parameter faults: an ill-formed regular expression and an identifier that designates several
+   instances where one is needed give INCORRECT_PARAMETERS; a 'group:*' namespec for start_args gives BAD_NAME *)
+Theorem fault_codes_regex :
+  forall v r, gate_allows (rq_meth r) (nv_state v) = true -> bad_strategy r = false -> bad_regex r = true ->
+              call v r = (v, [], Fault F_INCORRECT_PARAMETERS).
+Proof.
+  intros v r Hg Hs Hb. unfold call. rewrite Hg. clear Hg.
+  destruct r as [m st a p i pg n lv rx w fl]. unfold bad_strategy, bad_regex in *. cbn in *.
+  destruct m; cbn in *; try discriminate Hb; destruct rx; try discriminate Hb;
+    destruct st; cbn in *; try discriminate Hs; reflexivity.
+Qed.
+
+Theorem fault_codes_ambiguous_instance :
+  forall v r, gate_allows (rq_meth r) (nv_state v) = true -> documented_refusal v r = false ->
+              ambiguous_instance r = true -> call v r = (v, [], Fault F_INCORRECT_PARAMETERS).
+Proof.
+  intros v r Hg Hd Ha. unfold call. rewrite Hg. clear Hg.
+  destruct r as [m st a p i pg n lv rx w fl]. destruct v as [s ma u j c].
+  unfold ambiguous_instance, documented_refusal in *. cbn in *.
+  destruct m; cbn in *; try discriminate Ha; destruct i; try discriminate Ha; try reflexivity;
+    destruct ma; cbn in *; try discriminate Hd; destruct u; cbn in *; try discriminate Hd; reflexivity.
+Qed.
+
+Theorem fault_codes_start_args_group :
+  forall v r, group_not_applicable r = true -> unknown_name r = false -> hostile_name r = false ->
+              call v r = (v, [], Fault F_BAD_NAME).
+Proof.
+  intros v r Hb Hn Hh.
+  destruct r as [m st a p i pg n lv rx w fl]. unfold group_not_applicable, unknown_name, hostile_name in *. cbn in *.
+  destruct m; cbn in *; try discriminate Hb; destruct p; try discriminate Hb;
+    destruct a; cbn in *; try discriminate Hn; reflexivity.
+Qed.
+
+(* get_network_info is served, in every state, for an identifier, a nick identifier or a stereotype that designates
+   one instance *)
+Theorem network_info_accepts_nick :
+  forall v r, network_info_designates_one r = true -> call v r = (v, [], Served).
+Proof.
+  intros v r H. destruct r as [m st a p i pg n lv rx w fl]. unfold network_info_designates_one in H. cbn in H.
+  destruct m; cbn in H; try discriminate H; destruct i; try discriminate H; reflexivity.
+Qed.
+
+(* restart / shutdown without a known Master are refused with BAD_SUPVISORS_STATE, and nothing happens *)
+Theorem restart_shutdown_no_master_refused :
+  forall v r, is_restart_or_shutdown (rq_meth r) = true -> nv_master v = MNone ->
+              call v r = (v, [], Fault F_BAD_SUPVISORS_STATE).
+Proof.
+  intros v r Hm Hn. destruct r as [m st a p i pg n lv rx w fl]. destruct v as [s ma u j c].
+  cbn in Hm, Hn. subst ma. unfold call. cbn.
+  destruct m; try discriminate Hm; destruct s; reflexivity.
+Qed.
+
+Example fault_codes_extra_sat :
+  bad_regex (mk_req M_start_any_process StOk ApStopped PrKnown InIdent PgKnown NumOk LvOk RxBad true false) = true
+  /\ ambiguous_instance (mk_req M_get_network_info StOk ApStopped PrKnown InMulti PgKnown NumOk LvOk RxMatch true false) = true
+  /\ network_info_designates_one (mk_req M_get_network_info StOk ApStopped PrKnown InNick PgKnown NumOk LvOk RxMatch true false) = true.
 Proof. vm_compute. repeat split. Qed.
 
 (* ------------------------------------------------------------------------------------------------------------ *)
-(* The findings: the full statements are FALSE of the faithful model; witnesses replayed on the real code *)
-
-(* F19: restart_application on an application that is not Managed is served and emits a stop request *)
-Theorem restart_application_unmanaged_refuted :
-  exists v r, gate_allows (rq_meth r) (nv_state v) = true /\ bad_strategy r = false /\ unknown_name r = false
-              /\ unmanaged_app r = true
-              /\ call v r = (v, [OStop], Served).
-Proof.
-  exists (mk_view S_OPERATION MSelf true false true),
-         (mk_req M_restart_application StOk ApUnmanaged PrKnown InIdent PgKnown NumOk LvOk RxMatch true false).
-  vm_compute. repeat split.
-Qed.
-
-(* F20: get_network_info with a nick identifier (or a stereotype) raises KeyError in every state *)
-Theorem network_info_identifier_refuted :
-  forall v, exists r, class_network_info_identifier v r = true /\ call v r = (v, [], CrashO RKeyError).
-Proof.
-  intro v.
-  exists (mk_req M_get_network_info StOk ApStopped PrKnown InNick PgKnown NumOk LvOk RxMatch true false).
-  split; reflexivity.
-Qed.
-
-(* F18: restart / shutdown without a known Master raise RuntimeError / ValueError instead of the documented
-   BAD_SUPVISORS_STATE, in every state that passes the gate *)
-Theorem restart_shutdown_no_master_refuted :
-  forall s u j c, from_distribution_on s = true ->
-    (forall r, rq_meth r = M_restart -> call (mk_view s MNone u j c) r = (mk_view s MNone u j c, [], CrashO RRuntimeError))
-    /\ (forall r, rq_meth r = M_shutdown -> call (mk_view s MNone u j c) r = (mk_view s MNone u j c, [], CrashO RValueError)).
-Proof.
-  intros s u j c Hs. split; intros r Hr; destruct r as [m st a p i pg n lv rx w fl]; cbn in Hr; subst m;
-    destruct s; try discriminate Hs; reflexivity.
-Qed.
-
-(* start_args with a 'group:*' namespec raises AttributeError in every state *)
-Theorem start_args_group_refuted :
-  forall v, exists r, class_start_args_group v r = true /\ call v r = (v, [], CrashO RAttributeError).
-Proof.
-  intro v.
-  exists (mk_req M_start_args StOk ApStopped PrStar InIdent PgKnown NumOk LvOk RxMatch true false).
-  split; reflexivity.
-Qed.
-
-(* start_any_process with an ill-formed regular expression raises re.error *)
-Theorem any_process_regex_refuted :
-  exists v r, class_any_process_regex v r = true /\ call v r = (v, [], CrashO RReError).
-Proof.
-  exists (mk_view S_OPERATION MSelf true false true),
-         (mk_req M_start_any_process StOk ApStopped PrKnown InIdent PgKnown NumOk LvOk RxBad true false).
-  split; reflexivity.
-Qed.
+(* The remaining finding: the full statement is FALSE of the faithful model; witness replayed on the real code *)
 
 (* a namespec that is not a string raises AttributeError *)
 Theorem namespec_not_string_refuted :
@@ -259,13 +267,13 @@ Qed.
 Theorem model_satisfies_spec_unrestricted_refuted :
   exists v r, spec_ok v r (model_obs v r) = false.
 Proof.
-  exists (mk_view S_OPERATION MNone true false true),
-         (mk_req M_restart StOk ApStopped PrKnown InIdent PgKnown NumOk LvOk RxMatch true false).
+  exists (mk_view S_OPERATION MSelf true false true),
+         (mk_req M_get_process_info StOk ApStopped PrInt InIdent PgKnown NumOk LvOk RxMatch true false).
   reflexivity.
 Qed.
 
 (* ------------------------------------------------------------------------------------------------------------ *)
-(* model |= spec: outside the six known-finding classes, the observable the model predicts for ANY view and ANY
+(* model |= spec: outside the known-finding class (non-string namespec), the observable the model predicts for ANY view and ANY
    request satisfies the specification written from the property statement *)
 Ltac destruct_match_in H :=
   match type of H with
@@ -296,29 +304,3 @@ Example model_satisfies_spec_sat :
                  (mk_req M_stop_application StOk ApUnmanaged PrKnown InIdent PgKnown NumOk LvOk RxMatch true false)
   = false.
 Proof. reflexivity. Qed.
-
-(* none of the six exclusions is idle: each class contains a request on which the model (hence the code, by the
-   correspondence) breaks the specification *)
-Theorem each_known_class_violates_spec :
-  let vo := mk_view S_OPERATION MSelf true false true in
-  let vn := mk_view S_OPERATION MNone true false true in
-  let q m a p i rx := mk_req m StOk a p i PgKnown NumOk LvOk rx true false in
-  (class_restart_application_unmanaged vo (q M_restart_application ApUnmanaged PrKnown InIdent RxMatch) = true
-   /\ spec_ok vo (q M_restart_application ApUnmanaged PrKnown InIdent RxMatch)
-              (model_obs vo (q M_restart_application ApUnmanaged PrKnown InIdent RxMatch)) = false)
-  /\ (class_network_info_identifier vo (q M_get_network_info ApStopped PrKnown InNick RxMatch) = true
-      /\ spec_ok vo (q M_get_network_info ApStopped PrKnown InNick RxMatch)
-                 (model_obs vo (q M_get_network_info ApStopped PrKnown InNick RxMatch)) = false)
-  /\ (class_restart_shutdown_no_master vn (q M_shutdown ApStopped PrKnown InIdent RxMatch) = true
-      /\ spec_ok vn (q M_shutdown ApStopped PrKnown InIdent RxMatch)
-                 (model_obs vn (q M_shutdown ApStopped PrKnown InIdent RxMatch)) = false)
-  /\ (class_start_args_group vo (q M_start_args ApStopped PrStar InIdent RxMatch) = true
-      /\ spec_ok vo (q M_start_args ApStopped PrStar InIdent RxMatch)
-                 (model_obs vo (q M_start_args ApStopped PrStar InIdent RxMatch)) = false)
-  /\ (class_any_process_regex vo (q M_start_any_process ApStopped PrKnown InIdent RxBad) = true
-      /\ spec_ok vo (q M_start_any_process ApStopped PrKnown InIdent RxBad)
-                 (model_obs vo (q M_start_any_process ApStopped PrKnown InIdent RxBad)) = false)
-  /\ (class_namespec_not_string vo (q M_get_process_info ApStopped PrInt InIdent RxMatch) = true
-      /\ spec_ok vo (q M_get_process_info ApStopped PrInt InIdent RxMatch)
-                 (model_obs vo (q M_get_process_info ApStopped PrInt InIdent RxMatch)) = false).
-Proof. vm_compute. repeat split. Qed.
